@@ -132,6 +132,14 @@ def check_run(ctx, cfg, dev, kw, ref, k, N, Tend, with_model=True):
             fail("solution-times", f"Solution.times = {got_t.tolist()} but the frame times are {want_t.tolist()}", got=got_t.tolist())
     except Exception as e:  # noqa
         fail("solution-times-raises", f"Solution.times raised {type(e).__name__}: {e}")
+    # ... "the times reported by the LOADED solution": the same from the file alone
+    try:
+        back_t = np.asarray(tdgl.Solution.from_hdf5(sol.path).times, dtype=float)
+        if not (back_t.shape == want_t.shape and np.array_equal(back_t, want_t)):
+            fail("solution-times:reloaded", f"Solution.from_hdf5(...).times = {back_t.tolist()} but the frame times are {want_t.tolist()}", got=back_t.tolist())
+        ctx.count("times_checked_on_reloaded_solutions")
+    except Exception as e:  # noqa
+        fail("solution-times-raises", f"loading the solution / its times raised {type(e).__name__}: {e}")
     # thermalisation never recorded, clock restarts
     if cfg["opts"].get("skip_time"):
         if frames and (frames[0]["step"] != 0 or frames[0]["time"] != 0):
